@@ -159,6 +159,7 @@ def explore(ctx):
         if fails:
             ctx.oracle_failure(info, fails[:6])
     periodic_shifts(ctx, unwrap_terms)
+    periodic_shifts_ppv(ctx)
     empty_catalogs(ctx)
     terms = ['(%s, %s, %s)' % (cz(n_), clist(l), clist(un)) for n_, l, un in unwrap_terms]
     # distinct terms only
@@ -264,6 +265,62 @@ def periodic_shifts(ctx, unwrap_terms):
         ctx.case_done(None, ('shift', it))
         if fails:
             ctx.oracle_failure({'stream': 'periodic shifts', 'shape': list(shape), 'periodic_axes': per, 'data': base.tolist()}, fails)
+
+
+def periodic_shifts_ppv(ctx):
+    """A cube that is periodic along its velocity axis (whichever array axis that is): a structure narrower than half
+    that axis keeps v_rms and its sky statistics under every cyclic shift along it, and v_cen moves along."""
+    rng = ctx.rng('c12-shift-ppv')
+    for it in range(12 if ctx.quick else 120):
+        vaxis = rng.randrange(3)
+        nv, ny, nx = rng.randint(7, 10), rng.randint(3, 4), rng.randint(3, 5)
+        base = np.zeros((nv, ny, nx))
+        ext = rng.randint(1, (nv - 1) // 2 - 1)
+        v0 = rng.randrange(nv)
+        for dv in range(ext + 1):
+            for y in range(ny):
+                for x in range(nx):
+                    if rng.random() < 0.5 or (dv in (0, ext) and (y, x) == (1, 1)):
+                        base[(v0 + dv) % nv, y, x] = 1
+        nz = np.flatnonzero(base)
+        vals_ = list(range(3, 3 + len(nz)))
+        rng.shuffle(vals_)
+        base.ravel()[nz] = vals_
+        cube = np.moveaxis(base, 0, vaxis)            # velocity axis at array position vaxis
+        md = {'data_unit': u.Jy, 'vaxis': vaxis}
+        fields = ['v_rms', 'major_sigma', 'minor_sigma', 'area_exact', 'x_cen', 'y_cen', 'v_cen']
+        ref, fails = None, []
+        for k in range(nv):
+            arr = np.ascontiguousarray(np.roll(cube, k, axis=vaxis))
+            try:
+                d = Dendrogram.compute(arr, min_value=1, neighbours=periodic_neighbours(vaxis))
+                with warnings.catch_warnings():
+                    warnings.simplefilter('ignore')
+                    cat = ppv_catalog(d, md, fields=fields, verbose=False)
+            except Exception as e:
+                fails.append('shift %d: raised %r' % (k, e))
+                break
+            rows = []
+            for r in cat:
+                s = d[int(r['_idx'])]
+                cs = sorted(set(int(x) for x in s.indices(subtree=True)[vaxis]))
+                gaps = [(cs[(i + 1) % len(cs)] - cs[i]) % nv for i in range(len(cs))] if len(cs) > 1 else [nv]
+                extent = nv - max(gaps) if len(cs) > 1 else 0
+                if not 2 * (extent + 1) < nv:
+                    continue
+                rows.append(tuple(round(float(r[f]), 7) for f in fields[:6]) + (round((float(r['v_cen']) - k) % nv, 6) % nv,))
+            rows = sorted(rows)
+            ctx.count('periodic_shifts_ppv')
+            if ref is None:
+                ref = rows
+            elif len(rows) != len(ref) or any(not all(abs(a - b) < 1e-5 or abs(abs(a - b) - n_) < 1e-5
+                                                      for a, b, n_ in zip(x, y, [1e18] * 6 + [nv])) for x, y in zip(rows, ref)):
+                fails.append('shift %d along the periodic velocity axis (array axis %d): statistics / shifted v_cen %s differ from the '
+                             'unshifted ones %s' % (k, vaxis, rows, ref))
+                break
+        ctx.case_done(None, ('shift-ppv', it))
+        if fails:
+            ctx.oracle_failure({'stream': 'periodic shifts ppv', 'vaxis': vaxis, 'shape': list(cube.shape), 'data': cube.tolist()}, fails)
 
 
 def matches_known(k, case, fails, extra):
